@@ -23,12 +23,12 @@ def obligations(tier):
     for t in l1:
         sdf = 8 if t == 'u1' else 4
         o.append(Obl('L1_minmax_%s' % t, 'c02_summary.c', units=['wr_fsr.c', 'datatype.c'], defines=HOOKS + TYPES[t] + ['MODE_L1=1', 'SDF=%d' % sdf, 'NE=2'],
-                     unwind=2 * sdf + 4, timeout=to, backend=PORTFOLIO,
+                     unwind=2 * sdf + 4, timeout=to, backend=PORTFOLIO, unwind_text=[('harness', r'SYM_BYTES|grid_idx', 2 * sdf * 8 + 2)],
                      desc='level-1 reduction of one block, type %s: min/max exact, NaN handling, entry width, index/timestamps' % t,
                      bound='block of 2 entries x %d samples, all sample bit patterns' % sdf))
     for t in (['f32', 'f64'] if tier == 'quick' else ['f32', 'f64', 'i32', 'u8']):
         o.append(Obl('LN_minmax_%s' % t, 'c02_summary.c', units=['wr_fsr.c', 'datatype.c'], defines=HOOKS + TYPES[t] + ['MODE_LN=1', 'SUMDF=3', 'NE=2'],
-                     unwind=28, timeout=to, backend=PORTFOLIO,
+                     unwind=10, timeout=to, backend=PORTFOLIO, unwind_text=[('harness', r'i < NE \* SUMDF \* JLS_SUMMARY_FSR_COUNT', 27)],
                      desc='level-2 reduction of 6 symbolic level-1 entries (%s summaries): min of minima, max of maxima, NaN handling, index/timestamps' % ('64-bit' if t in ('f64', 'i32') else '32-bit'),
                      bound='2 level-2 entries x 3 level-1 entries, all float bit patterns'))
     o.append(Obl('L1_meanstd_grid_f32', 'c02_summary.c', units=['wr_fsr.c', 'datatype.c'], defines=HOOKS + TYPES['f32'] + ['MODE_L1=1', 'GRID=1', 'SDF=3', 'NE=1'],
